@@ -43,6 +43,48 @@ def float_pairs(seed, n):
     return out
 
 
+def float_pool(ctx, n_pool, n_keep):
+    """A large pool of float pairs (near-touch and near-collinear, all four quadrants of signs so that the products inside
+    the orientation filter take both signs) is run through the real code; an apparent class is computed in the orchestrator
+    with exact fractions, and the pairs where any argument order reports another class are handed to the model checker
+    (prioritisation only - SegSegOK on exact integers decides)."""
+    from fractions import Fraction as F
+    pool = float_pairs(ctx.seed + 31, n_pool)
+    import random
+    r = random.Random(ctx.seed * 3 + 8)
+    for c in pool:                                   # move half of them to other quadrants / mirror them
+        sx, sy = r.choice([1, 1, -1]), r.choice([1, 1, -1])
+        ox, oy = r.choice([0, 0, -2.5, -1000.0]), r.choice([0, 0, -2.5, 1000.0])
+        seg = [[ec.parse_exact(v) for v in p] for p in c["seg"]]
+        c["seg"] = [[ec.to_exact(float(p[0]) * sx + ox), ec.to_exact(float(p[1]) * sy + oy)] for p in seg]
+    obs = vlib.run_driver(ctx, "segseglist", [dict(segs=[c["seg"]]) for c in pool], for_tlc=False)
+
+    def orient(a, b, c):
+        d = (b[0] - a[0]) * (c[1] - a[1]) - (b[1] - a[1]) * (c[0] - a[0])
+        return (d > 0) - (d < 0)
+
+    def inbox(p, a, b):
+        return min(a[0], b[0]) <= p[0] <= max(a[0], b[0]) and min(a[1], b[1]) <= p[1] <= max(a[1], b[1])
+
+    def meets(a, b, c, d):
+        o1, o2, o3, o4 = orient(a, b, c), orient(a, b, d), orient(c, d, a), orient(c, d, b)
+        if o1 * o2 < 0 and o3 * o4 < 0:
+            return True
+        return (o1 == 0 and inbox(c, a, b)) or (o2 == 0 and inbox(d, a, b)) or (o3 == 0 and inbox(a, c, d)) or (o4 == 0 and inbox(b, c, d))
+    sus = []
+    for c, o in zip(pool, obs):
+        rows = o.get("rows", [])
+        if not rows:
+            sus.append(c)
+            continue
+        P = [[F(ec.parse_exact(v)) for v in p] for p in rows[0]["x"]]
+        want = meets(*P)
+        if any((row.get("t") != "none") != want for row in rows):
+            sus.append(c)
+    ctx.coverage_extra["float_pool"] = dict(pool=len(pool), apparent_class_mismatches=len(sus), kept=min(n_keep, len(sus)))
+    return [dict(c, fam=c["fam"] + "/screened") for c in sus[:n_keep]]
+
+
 def big_pipe(ctx, verdict, cases, name="segsegx"):
     """Large-grid tier: the driver runs each pair in all 8 argument symmetries; Apalache decides every row with
     ExactGeom!SegSegOK on exact integers (class, exact endpoints, crossing point within the forward-error bound)."""
@@ -168,6 +210,7 @@ def run(ctx, verdict):
     cases += screened(ctx, 6000 if ctx.quick else 60000, 24 if ctx.quick else 150)
     cases += tee_pool(ctx, 40000 if ctx.quick else 400000, 12 if ctx.quick else 60)
     cases += float_pairs(ctx.seed, 40 if ctx.quick else 600)
+    cases += float_pool(ctx, 6000 if ctx.quick else 120000, 12 if ctx.quick else 60)
     vlib.note_cases(ctx, cases)
     big_pipe(ctx, verdict, cases)
     ctx.coverage_extra["big_tier"] = dict(pairs=len(cases), rows=8 * len(cases), grids=[1 << 10, 1 << 16, 1 << 20],
